@@ -774,7 +774,9 @@ def roll(a, shift, axis=None):
     if len(axis) != len(shift):
         raise ValueError("If 'shift' is a 1D sequence, 'axis' must have equal length.")
 
-    if not can_store(a.coords.dtype, max(a.shape + shift)):
+    # every value a coordinate can take before it is reduced modulo its axis length
+    limits = a.shape + tuple(shift) + tuple(a.shape[ax] + sh for sh, ax in zip(shift, axis, strict=True))
+    if not (can_store(a.coords.dtype, max(limits)) and can_store(a.coords.dtype, min(limits))):
         raise ValueError(
             f"cannot roll with coords.dtype {a.coords.dtype} and shift {shift}. Try casting coords to a larger dtype."
         )
